@@ -71,6 +71,17 @@ func evalC05RT(c c05RT, o *Obs) error {
 		if e1 == nil && a.String() != b.String() {
 			return fmt.Errorf("re-parsed key %s: Child(%d) = %s, original derives %s", s, i, b.String(), a.String())
 		}
+		// what is done to a child of the parsed key (moved to another network, printed, erased) leaves the parsed key as it is
+		if e2 == nil {
+			b.SetNet(nets[(c.Net+1)%len(nets)].Params)
+			_ = b.String()
+			if i%2 == 1 {
+				b.Zero()
+			}
+			if p.String() != s {
+				return fmt.Errorf("re-parsed key %s serialises to %s after its child %d was moved to another network / printed / erased", s, p.String(), i)
+			}
+		}
 	}
 	return nil
 }
